@@ -380,6 +380,8 @@ pub enum CutKind {
     Eof,
     /// reader gets this error after draining
     ReadErr,
+    /// the same with io::ErrorKind::UnexpectedEof (what a TLS layer reports when the peer vanishes without close_notify)
+    ReadErrEof,
     /// the writer's next write fails with BrokenPipe
     WriteErr,
     /// the writer's next write returns Ok(0)
@@ -406,6 +408,7 @@ pub struct Pipe {
     pub cut_at: Option<(usize, CutKind)>,
     pub cut_done: bool,
     read_err_pending: bool,
+    read_err_eof: bool,
     pub shutdown_called: bool,
     pub flushes: u64,
     clock: Rc<Cell<u64>>,
@@ -431,6 +434,7 @@ impl Pipe {
             cap: usize::MAX,
             reader_waker: None,
             writer_waker: None,
+            read_err_eof: false,
             runaway: false,
             w_in_poll: (0, 0),
             writer_closed: false,
@@ -487,9 +491,10 @@ impl Pipe {
         self.cut_done = true;
         match kind {
             CutKind::Eof => self.writer_closed = true,
-            CutKind::ReadErr => {
+            CutKind::ReadErr | CutKind::ReadErrEof => {
                 self.writer_closed = true;
                 self.read_err_pending = true;
+                self.read_err_eof = kind == CutKind::ReadErrEof;
             }
             CutKind::WriteErr | CutKind::WriteZero => {}
         }
@@ -565,6 +570,9 @@ impl AsyncRead for Io {
         if p.buf.is_empty() {
             if p.read_err_pending {
                 p.read_err_pending = false;
+                if p.read_err_eof {
+                    return Poll::Ready(Err(io::Error::new(io::ErrorKind::UnexpectedEof, "sim: peer closed without close_notify")));
+                }
                 return Poll::Ready(Err(io::Error::new(io::ErrorKind::ConnectionReset, "sim: connection reset")));
             }
             if p.writer_closed {
